@@ -193,7 +193,7 @@ def block_keys(function):
 
 def render_function(function, keys):
     out = [f"fentry {keys[function.entry]}"]
-    K = lambda b: keys.get(b, b.idx + SUB_OFF)
+    K = lambda b: keys.get(b, b.idx if b._subroutine is None else b.idx + SUB_OFF)
     from tealer.detectors.groupsize import MissingGroupSize
     for b in function.blocks:
         try:
